@@ -16,6 +16,7 @@ open Gonuts Gonuts.Model
 
 structure St where
   mint : Model.Mint.CSess := {}
+  wire : Model.WireDriver.WSt := {}
 
 def u64? (s : Sexp) : Option UInt64 := do
   let n ← s.asNat?
@@ -56,13 +57,16 @@ def step (st : St) (line : String) : St × String :=
       match Model.MintDriver.handleC st.mint cmd args with
       | some (m', out) => ({ st with mint := m' }, out.render)
       | none => (st, "(bad-op)")
+    else if cmd.startsWith "wire." then
+      match Model.WireDriver.handleSt st.wire cmd args with
+      | some (w', out) => ({ st with wire := w' }, out.render)
+      | none => (st, "(bad-op)")
     else
       let r :=
         if cmd.startsWith "spend." then Model.SpendDriver.handle cmd args
         else if cmd.startsWith "token." then Model.TokenDriver.handle cmd args
         else if cmd.startsWith "select." then Model.SelectDriver.handle cmd args
         else if cmd.startsWith "spec." then Model.SpecDriver.handle cmd args
-        else if cmd.startsWith "wire." then Model.WireDriver.handle cmd args
         else if cmd.startsWith "wallet." then Model.WalletDriver.handle cmd args
         else none
       match r with
